@@ -159,6 +159,17 @@ func c12GenSlots(r *lib.Rng, cls, version int, o c12GenOpts, usedArgs map[int]bo
 		j := r.Intn(i + 1)
 		perm[i], perm[j] = perm[j], perm[i]
 	}
+	// half of the classes draw their slots from two names only: the same slot then shows up at many
+	// places of a hierarchy (shadowing, joins of a diamond)
+	if r.Bool() {
+		perm = []int{0, 1}
+		if r.Bool() {
+			perm = []int{1, 0}
+		}
+		if nslots > 2 {
+			nslots = 2
+		}
+	}
 	for _, name := range perm[:nslots] {
 		sl := c12Slot{name: name}
 		na := []int{0, 0, 1, 1, 1, 1, 2, 2}[r.Intn(8)]
@@ -670,6 +681,10 @@ var c12Cells = []c12Cell{
 		"D:0:-:0/-/1/- D:1:0:0/-/11/- D:2:0:0/-/21/- D:3:1,2:-  D:4:2,1:- P:3 P:4 M:3:- M:4:- A:3:0,1,2 A:4:0,1,2 T:3:0"},
 	{"diamond/forward", 1,
 		"D:3:1,2:- P:3 D:2:0:0/-/21/- P:3 D:1:0:0/-/11/- P:3 P:1 M:3:- D:0:-:0/-/1/- P:3 P:2 P:1 M:3:- A:3:0,1,2 T:3:0"},
+	{"diamond/initform-through-join", 1,
+		"D:0:-:0/0/1/-;1/-/2/- D:1:0:- D:2:0:0/-/21/- D:3:1,2:- D:4:2,1:- D:5:1,2:1/-/52/- P:3 M:3:- M:4:- M:5:- M:3:0=1000"},
+	{"diamond/initarg-through-join", 1,
+		"D:0:-:0/0/1/- D:1:0:- D:2:0:0/1/-/- D:3:1,2:- P:3 M:3:- M:3:0=1000 M:3:1=1010 M:1:1=1010"},
 	{"super-order/ancestor-first", 1,
 		"D:0:-:0/-/1/- D:1:0:0/-/11/- D:2:0,1:- P:2 M:2:- A:2:0,1 D:3:1,0:- P:3 M:3:- A:3:0,1"},
 	{"shadow/initform-levels", 1,
